@@ -54,9 +54,13 @@ static void idset_dense(Src& s, const char* name) {
     size_t steps = 1 + s.draw(60);
     std::string hist = std::string{name} + ":";
     bool crossed = false;
+    std::vector<T> recent;
     for (size_t i = 0; i < steps; ++i) {
         int cmd = static_cast<int>(s.weighted({8, 3, 3, 4, 1, 1, 1, 1, 3}));
         T id = gen_dense_id<T, BITS>(s, allow_top);
+        // operations on the ids of the last few steps (set x, unset x, set x again, ...): state kept per "last id" shows only there
+        if (!recent.empty() && s.chance(1, 3)) id = recent[recent.size() - 1 - s.draw(std::min<size_t>(recent.size(), 3))];
+        recent.push_back(id);
         switch (cmd) {
             case 0:
                 set.set(id);
